@@ -44,3 +44,25 @@ func ServerCert() tls.Certificate {
 
 func ServerTLS() *tls.Config { return &tls.Config{Certificates: []tls.Certificate{ServerCert()}} }
 func ClientTLS() *tls.Config { return &tls.Config{InsecureSkipVerify: true, ServerName: "verif.local"} }
+
+// ClientCert returns a fresh self-signed client certificate for the given common name: a certificate
+// that no server could verify against any authority.
+func ClientCert(cn string) tls.Certificate {
+	key, err := ecdsa.GenerateKey(elliptic.P256(), rand.Reader)
+	if err != nil {
+		panic(err)
+	}
+	tmpl := &x509.Certificate{
+		SerialNumber: big.NewInt(2),
+		Subject:      pkix.Name{CommonName: cn},
+		NotBefore:    time.Date(2000, 1, 1, 0, 0, 0, 0, time.UTC),
+		NotAfter:     time.Date(2099, 1, 1, 0, 0, 0, 0, time.UTC),
+		KeyUsage:     x509.KeyUsageDigitalSignature,
+		ExtKeyUsage:  []x509.ExtKeyUsage{x509.ExtKeyUsageClientAuth},
+	}
+	der, err := x509.CreateCertificate(rand.Reader, tmpl, tmpl, &key.PublicKey, key)
+	if err != nil {
+		panic(err)
+	}
+	return tls.Certificate{Certificate: [][]byte{der}, PrivateKey: key}
+}
